@@ -65,19 +65,55 @@ class Ctx:
         self.uses_pi = False
         self.max_forks = 400
         self.unit_exprs = {}               # ids of simplified sum-of-squares terms the harness declared equal to 1
+        self.by_site = {}                  # (fname, site) -> atoms created there
+        self.site_align = False            # eager alignment of new atoms with earlier ones of the same site (twin runs)
+        self.site_align_max = 6
+        self.site_align_max_site_size = 8
+        self.site_align_timeout_ms = 2000
+        self.site_aligned = 0
+        self._keep = []
+        self.fork_entail = False           # before forking, ask whether the path condition already decides the branch
+        self.fork_entail_timeout_ms = 4000
+        self.implied_forks = 0
 
     def fresh_real(self, prefix):
         self.fresh += 1
         return z3.Real("%s!%d" % (prefix, self.fresh))
 
+    def _site_align(self, fname, args, site):
+        """eager alignment: an atom created at the same source line with provably equal arguments is re-used"""
+        from . import smt as _smt
+        from .rel import cone_defs
+        allc = self.by_site.get((fname, site), [])
+        if not allc or len(allc) > self.site_align_max_site_size:
+            return None          # busy sites (N x N geometry loops) are left to the later, targeted alignment
+        cands = [e for e in allc if len(e[2]) == len(args)][-self.site_align_max:]
+        if not cands:
+            return None
+        base = list(self.assumptions)
+        for ent in reversed(cands):
+            goal = z3.And(*[x == y for x, y in zip(args, ent[2])])
+            if _smt.entails(base + cone_defs(self, list(args) + list(ent[2])), goal, self.site_align_timeout_ms):
+                self.site_aligned += 1
+                return ent
+        return None
+
     def atom(self, fname, args, mk_defs=None):
         key = (fname,) + tuple(a.get_id() for a in args)
         ent = self.atoms.get(key)
+        if ent is None and self.site_align:
+            site = _repo_site()
+            hit = self._site_align(fname, args, site)
+            if hit is not None:
+                self.atoms[key] = hit
+                self._keep.append(tuple(args))
+                ent = hit
         if ent is None:
             v = self.fresh_real(fname)
             ent = (v, fname, tuple(args))
             self.atoms[key] = ent
             self.where[v.get_id()] = _repo_site()
+            self.by_site.setdefault((fname, self.where[v.get_id()]), []).append(ent)
             d = []
             if mk_defs is not None:
                 d = list(mk_defs(v, *args))
@@ -524,6 +560,22 @@ class SB:
         for (tb, tv) in c.taken:
             if tb.get_id() == b.get_id():
                 return tv
+        if c.fork_entail and c.pc:
+            # is the branch already decided by the path condition (e.g. the twin run repeats a test on a provably equal value)?
+            from . import smt as _smt
+            from .rel import cone_defs, vars_of
+            bv = set(vars_of(b).keys())
+            for d in cone_defs(c, [b]):
+                bv |= set(vars_of(d).keys())
+            lits = [l for l in c.pc if bv & set(vars_of(l).keys())]
+            if lits:
+                facts = list(c.assumptions) + lits + cone_defs(c, [b] + lits)
+                if _smt.entails(facts, b, c.fork_entail_timeout_ms):
+                    c.implied_forks += 1
+                    return True
+                if _smt.entails(facts, z3.Not(b), c.fork_entail_timeout_ms):
+                    c.implied_forks += 1
+                    return False
         val = c.decisions[k] if k < len(c.decisions) else True
         c.taken.append((b, val))
         c.pc.append(b if val else z3.Not(b))
